@@ -71,6 +71,11 @@ func (h *vfSlowStreamHost) NewStream(ctx context.Context, p peer.ID, pids ...pro
 // newVfSim builds n full hosts with the fixed identities vfPeer(0..n-1). latMs gives the one-way latency of the
 // directed link from -> to in milliseconds (constant per link, so packets of one flow stay ordered).
 func newVfSim(t *testing.T, n int, latMs func(from, to int) int) (*vfSim, error) {
+	return newVfSimOpts(t, n, latMs, nil)
+}
+
+// newVfSimOpts: extra gives additional libp2p options per host (e.g. a recording connection manager).
+func newVfSimOpts(t *testing.T, n int, latMs func(from, to int) int, extra func(i int) []libp2p.Option) (*vfSim, error) {
 	s := &vfSim{t: t, base: time.Now(), ipIdx: map[string]int{}, latMs: latMs}
 	s.sim = &simnet.Simnet{LatencyFunc: func(p *simnet.Packet) time.Duration {
 		f, okf := s.ipIdx[vfAddrIP(p.From)]
@@ -91,13 +96,17 @@ func newVfSim(t *testing.T, n int, latMs func(from, to int) int) (*vfSim, error)
 	for i := 0; i < n; i++ {
 		ip := simnet.IntToPublicIPv4(i)
 		s.ipIdx[ip.String()] = i
-		h, err := libp2p.New(
+		hopts := []libp2p.Option{
 			libp2p.Identity(vfPeer(i).Priv),
 			libp2p.ListenAddrStrings(fmt.Sprintf("/ip4/%s/udp/8000/quic-v1", ip)),
 			simlibp2p.QUICSimnet(s.sim, link),
 			libp2p.DisableIdentifyAddressDiscovery(),
 			libp2p.ResourceManager(&network.NullResourceManager{}),
-		)
+		}
+		if extra != nil {
+			hopts = append(hopts, extra(i)...)
+		}
+		h, err := libp2p.New(hopts...)
 		if err != nil {
 			s.close()
 			return nil, err
@@ -436,4 +445,16 @@ func (k *vfSkel) streamAt(n int) time.Duration {
 		return -1
 	}
 	return k.inAt[n]
+}
+
+// writeBytes writes raw bytes (no framing) to our outbound stream to node `to`.
+func (k *vfSkel) writeBytes(to int, b []byte) error {
+	k.mu.Lock()
+	st := k.out[to]
+	k.mu.Unlock()
+	if st == nil {
+		return fmt.Errorf("no outbound stream to %d", to)
+	}
+	_, err := st.Write(b)
+	return err
 }
